@@ -1215,7 +1215,14 @@ orc_compiler_rewrite_vars2 (OrcCompiler *compiler)
       else
         dest = compiler->insns[j].dest_args[1];
 
-      if (compiler->vars[src1].last_use == j) {
+      /* When the same variable is also the second (or third) source, the
+       * rules still read it after they have started to write dest, so dest
+       * must not share its register */
+      if (compiler->vars[src1].last_use == j &&
+          !(compiler->insns[j].opcode->src_size[1] != 0 &&
+            compiler->insns[j].src_args[1] == src1) &&
+          !(compiler->insns[j].opcode->src_size[2] != 0 &&
+            compiler->insns[j].src_args[2] == src1)) {
         if (compiler->vars[src1].first_use == j) {
           k = orc_compiler_allocate_register (compiler, TRUE);
           compiler->vars[src1].alloc = k;
